@@ -267,11 +267,14 @@ def run(p, report, tier):
     report.analysed["entities"] = [f"{ci.name}.{f.name}" for ci, f in ents]
     n_events = 0
     diag = set()
+    callstats = {}
     for ci, f in ents:
         it = Interp(p)
         it.run_entity(ci, f)
         n_events += len(it.events)
         diag |= it.diag
+        for _k, _v in it.stats.items():
+            callstats[_k] = callstats.get(_k, 0) + _v
         dis = Discharger(p, ci, it)
         ent = f"{ci.name}.{f.name}"
         seen = set()
@@ -314,6 +317,7 @@ def run(p, report, tier):
         report.analysed["strategy_x_manager_combinations"] = combos
     report.analysed["events"] = n_events
     report.analysed["diagnostics"] = sorted(diag)
+    report.analysed["call_resolution"] = callstats
     report.assumptions += [
         "external (numpy/sklearn) calls have only the effects listed in the in-place tables",
         "exceptions raised between a save and its restore are not modelled",
